@@ -11,10 +11,10 @@ import posixpath
 
 
 FAILING = {"NOTFOUND", "ERR_BEFORE", "ERR_MID", "ERR_AFTER", "HTTP_404", "HTTP_5XX", "CONN_ERR", "TIMEOUT",
-           "EIO", "ENOSPC", "EMFILE", "SRC_MISSING", "PP_ERR_BEFORE", "PP_ERR_MID", "PP_ERR_AFTER", "PP_NOTFOUND", "PP_NOTFOUND_AFTER", "RENAME_EIO",
+           "EIO", "ENOSPC", "EMFILE", "SRC_MISSING", "PP_ERR_BEFORE", "PP_ERR_MID", "PP_ERR_AFTER", "PP_NOTFOUND", "PP_NOTFOUND_AFTER", "RENAME_EIO", "UNLINK_EACCES",
            "RET_FALSE_BEFORE", "RET_FALSE_MID", "INTERRUPT_MID", "PP_INTERRUPT_MID", "ERR_STOPITER", "VALIDATE_RAISE", "DISK_FULL", "NOTFOUND_MID", "HTTP_DROP_MID"}
 NOTFOUND_KINDS = {"NOTFOUND", "HTTP_404", "SRC_MISSING", "NOTFOUND_MID"}
-FS_KINDS = {"EIO", "ENOSPC", "SHORT_WRITE", "EMFILE", "SRC_MISSING", "RENAME_EIO", "DISK_FULL"}
+FS_KINDS = {"EIO", "ENOSPC", "SHORT_WRITE", "EMFILE", "SRC_MISSING", "RENAME_EIO", "DISK_FULL", "UNLINK_EACCES"}
 
 
 def _scheme_of_fault(kind):
@@ -204,6 +204,8 @@ class Oracle:
     # ------------------------------------------------------------------ open
     def _check_open(self, obs):
         w = self.w
+        for k_ in [k_ for k_, rj_ in self.rejected_since.items() if rj_.get("undeletable")]:
+            del self.rejected_since[k_]  # a new process: it cannot know a verdict about a file that could not be deleted
         if obs.crashed:
             self.registered = None
             self.tainted = True
@@ -372,6 +374,10 @@ class Oracle:
                 p0 = self.p_of(k)
                 if p0 in pre_files:
                     self.rejected_since[k] = {"id": (pre_files[p0][4], pre_files[p0][5]), "path": p0}
+                    if any(f["kind"] == "UNLINK_EACCES" for f in fired):
+                        # the operating system refused the deletion of the rejected file: the running process must
+                        # still never serve it, but the next process cannot know about the verdict
+                        self.rejected_since[k]["undeletable"] = True
         if obs.busy_after > 0:
             self.volatile |= set(misses)
 
@@ -705,9 +711,9 @@ class Oracle:
                 return "a truncated copy (%d of %d bytes)" % (len(data), len(a))
         kd = w.keys[k]
         if kd.get("pp"):
-            other = "pp" if kd.get("ppn", "pp") == "pp2" else "pp2"
+            other = "pp" if kd.get("ppn", "pp") != "pp" else "the second post-processor"
             for raw in w.store.all_versions(kd["res"]):
-                if data == (b"Q2(" if other == "pp2" else b"PP(") + raw[::-1] + b")":
+                if data == (b"Q2(" if other != "pp" else b"PP(") + raw[::-1] + b")":
                     return "the output of the post-processor registered as %r, but the uri names %r" % (other, kd.get("ppn", "pp"))
             for raw in w.store.all_versions(kd["res"]):
                 if data == raw:
@@ -787,6 +793,9 @@ class Oracle:
             if obs.length != 0:
                 return self._v("18d", "len(cache)=%d after purge" % obs.length, obs)
         # (module-level purge re-creates the cache object: under faults it may adopt orphaned complete files)
+        if w_is_module(self.w):
+            for k_ in [k_ for k_, rj_ in self.rejected_since.items() if rj_.get("undeletable")]:
+                del self.rejected_since[k_]  # a new cache object: as after a reopen
         self.registered = new_reg if self.c19 else set()
         if w_is_module(self.w) and obs.max_bytes is not None:
             # module-level purge re-creates the cache object, which re-reads the persisted configuration
